@@ -562,10 +562,78 @@ func ruleResetGroupUnconditional(c *Ctx) {
 
 func init() {
 	register("C02", "Granted timestamps stay below the durably stored time window", func(c *Ctx) {
+		c.Group("C02/sync-above-window", "a new leader starts at least the guard above the loaded window: tested with the operands in order, or just assigned last.Add(guard)", func() { ruleSyncAboveWindow(c) })
 		c.Group("C02/save-before-advance", "memory never advances past a window that was not stored first (every CFG path to an advance passes the success edge of saveTimestamp for the same value, or the window guard's 'still enough' edge)", func() { ruleSaveBeforeAdvance(c) })
 		c.Group("C02/window-txn", "the window key has one writer, inside a leader-guarded transaction; the remembered window is updated only after the transaction is known applied", func() { ruleSaveTimestampShape(c) })
 		c.Group("C02/reset-on-failure", "failure to extend the window resets the allocator; an initialised leader always resets on exit", func() { ruleResetOnFailure(c); ruleResetGroupUnconditional(c) })
 		c.Group("C02/wall-clock-helpers", "the window arithmetic is done on wall-clock readings", func() { ruleWallClockHelpers(c) })
 		c.Group("C02/load-max-window", "loading takes the maximum over all stored windows", func() { ruleLoadTimestampMax(c) })
 	})
+}
+
+// ruleSyncAboveWindow: a new leader starts at max(now, last stored window +
+// guard). In SyncTimestamp the value x that is saved (x+interval) and installed
+// (setTSOPhysical(x)) is, on every path, either known to lie at least the guard
+// above the loaded window (false edge of Sub(x, last) < guard, x first) or was
+// just assigned last.Add(guard). Dropping the adjustment, adjusting from `now`
+// instead of `last`, or swapping the operands of the test lets the first
+// timestamps of a leader fall into the window its predecessor may have used.
+func ruleSyncAboveWindow(c *Ctx) {
+	P := c.P
+	const tso = "server/tso"
+	rule := c.Prop + "/sync-above-window"
+	fn := P.Method(tso, "timestampOracle", "SyncTimestamp")
+	setPhys := F(P.Method(tso, "timestampOracle", "setTSOPhysical"))
+	save := F(P.Method(tso, "timestampOracle", "saveTimestamp"))
+	load := F(P.Method(tso, "timestampOracle", "loadTimestamp"))
+	subReal := F(P.Func("pkg/typeutil", "SubRealTimeByWallClock"))
+	guardConst, ok := constIntObj(P.obj(tso, "UpdateTimestampGuard"))
+	if !ok {
+		undecidedf("UpdateTimestampGuard is not a constant")
+	}
+	fromLast := derived(resultOfCall(load), 4)
+	for _, ci := range callsIn(fn, false, setPhys) {
+		a := callArgs(ci.Common())
+		if len(a) != 1 {
+			continue
+		}
+		cell := cellOf(a[0])
+		if cell == nil {
+			c.Undec(rule, "start value in "+fnName(fn), "a local variable assigned now / last+guard", P.instrPos(ci), "the installed value is not a load of a local cell")
+			continue
+		}
+		isLoadCell := func(v ssa.Value) bool { return cellOf(v) == cell }
+		isStoreCell := func(x ssa.Instruction) bool {
+			st, ok := x.(*ssa.Store)
+			return ok && st.Addr == ssa.Value(cell)
+		}
+		above := &guardEv{name: "Sub(x, last) >= guard", invalidate: isStoreCell, match: func(cond ssa.Value, pos bool) bool {
+			r, ok := relOf(cond, pos)
+			if !ok || r.Op != token.GEQ && r.Op != token.GTR {
+				return false
+			}
+			cl, _ := callOf(r.X)
+			if cl == nil || !subReal.Match(cl.Common()) || len(cl.Call.Args) != 2 {
+				return false
+			}
+			g, isC := constInt(r.Y)
+			return isC && g >= guardConst && isLoadCell(cl.Call.Args[0]) && fromLast(cl.Call.Args[1])
+		}}
+		adjusted := &calledEv{name: "x = last.Add(guard)", reset: isStoreCell, match: func(x ssa.Instruction) bool {
+			st, ok := x.(*ssa.Store)
+			if !ok || st.Addr != ssa.Value(cell) {
+				return false
+			}
+			add, _ := callOf(st.Val)
+			if add == nil || !isStdMethod(add, "time", "Time", "Add") || len(add.Call.Args) != 2 {
+				return false
+			}
+			g, isC := constInt(add.Call.Args[1])
+			return isC && g >= guardConst && fromLast(add.Call.Args[0])
+		}}
+		c.need(rule, fn, "install/save of the start value", func(x ssa.Instruction) bool {
+			cl, ok := x.(*ssa.Call)
+			return ok && (setPhys.Match(cl.Common()) || save.Match(cl.Common()))
+		}, []Ev{above, adjusted}, anyOf, "the start value is at least the guard above the loaded window: tested (x first, the window second), or just assigned last.Add(guard)")
+	}
 }
